@@ -73,7 +73,7 @@ def load_known():
 def _worker(args):
     pid, seed, tier, lo, hi, recheck_mod = args
     faulthandler.enable()
-    faulthandler.dump_traceback_later(RUN_WATCHDOG * 4, exit=True)
+    faulthandler.dump_traceback_later(RUN_WATCHDOG * 15, exit=True)        # last-resort net only (30 min per work item)
     prop = load_prop(pid)
     stats = collections.Counter()
     digests = set()
